@@ -213,6 +213,18 @@ fn run_history<H: Hist>(c: &History, o: &mut Obs) -> TestResult {
             }
         }
         verify(&pool, &model, step, op, o)?;
+        // the derived views of the histogram(s) this step touched (a stale cache would show here even if a
+        // later operation repairs it)
+        let touched: Vec<usize> = match op {
+            Op::Add { h, .. } | Op::Mul { h, .. } | Op::Reset { h } => vec![*h % 4],
+            Op::Merge { dst, .. } | Op::AddAssign { dst, .. } => vec![*dst % 4],
+            Op::Clone { dst, .. } => vec![*dst % 4],
+        };
+        if H::LEN <= 10 || step % 4 == 3 {
+            for i in touched {
+                check_views(&pool[i], &model[i], &edges[i], &format!("histogram {} after step {} ({:?})", i, step, op), o)?;
+            }
+        }
     }
     // commutativity / associativity on the three histograms over edges_a
     let (a, b, cc) = (&pool[0], &pool[1], &pool[2]);
@@ -364,7 +376,7 @@ pub fn history_strategy(imp: String, len: usize, max_ops: usize) -> impl Strateg
 }
 
 pub fn run(cx: &Ctx) {
-    cx.set_rule("cases = histories over a pool of four histograms (three on one edge vector, one on a second vector that is identical, numerically equal but with -0.0/0.0 swapped, or different in one edge): add, merge, +=, *= k (k <= 5 or a power of two up to 2^55, so that counts beyond 2^53 occur), reset, clone, executed on the real histograms and on a model (edge vector + Vec<u64>); after every step all counts and edges are compared with the model; every merge/+= is executed both ways on clones (both must give the bin-wise sum, or — for numerically different edges — both must panic leaving both operands bit-identical); at the end a+b = b+a, (a+b)+c = a+(b+c) for merge and for +=, and iteration, widths, centers, normalized_bins (NaN-aware, IEEE semantics for infinite/zero-width bins), variance(i), variances() are compared with their definitions. LEN in {1,2,3,4,10,100}, every implementation in the build. Non-trivial = history contains a merge or += between two non-empty histograms; distinct = hash of (implementation, LEN, edges, history)");
+    cx.set_rule("cases = histories over a pool of four histograms (three on one edge vector, one on a second vector that is identical, numerically equal but with -0.0/0.0 swapped, or different in one edge): add, merge, +=, *= k (k <= 5 or a power of two up to 2^55, so that counts beyond 2^53 occur), reset, clone, executed on the real histograms and on a model (edge vector + Vec<u64>); after every step all counts and edges are compared with the model; every merge/+= is executed both ways on clones (both must give the bin-wise sum, or — for numerically different edges — both must panic leaving both operands bit-identical); after every step the derived views of the touched histogram are compared with their definitions; at the end a+b = b+a, (a+b)+c = a+(b+c) for merge and for +=, and iteration, widths, centers, normalized_bins (NaN-aware, IEEE semantics for infinite/zero-width bins), variance(i), variances() are compared with their definitions. LEN in {1,2,3,4,10,100}, every implementation in the build. Non-trivial = history contains a merge or += between two non-empty histograms; distinct = hash of (implementation, LEN, edges, history)");
     cx.extra("implementations", serde_json::json!(IMPLS));
     cx.assume("counts are kept below 2^57 by skipping operations that would exceed it (u64 overflow is outside the property)");
     cx.label("generated");
